@@ -846,3 +846,4 @@ M('d98-metrics-output-port-not-reserved', ['C12'], CLI, '        if isinstance(o
 M('sweep13-end-position-not-taken-after-the-search', ['C13'], RL, "                    at = start\n\n                read_file.seek(at)\n", "                    at = start\n\n                pass\n", ['C13.R16'])
 M('sweep13-end-search-goes-on-past-a-found-delimiter', ['C13'], RL, "                        at = start + cut\n\n                        break\n", "                        at = start + cut\n", ['C13.R16'])
 M('sweep13-end-position-before-the-delimiter', ['C13'], RL, "if (cut := read_file.read(at - start).rfind(b'\\n') + 1):", "if (cut := read_file.read(at - start).rfind(b'\\n') - 1):", ['C13.R16'])
+M('sweep13-tell-inside-the-list-answers-nothing', ['C14'], RL, "            return (os.path.basename(logfiles[read_idx].path), 0 if read_file is None else\n                read_file.tell() if file_pos else None)\n", "            pass\n", ['C14.R6'])
